@@ -65,6 +65,7 @@ class Part(object):
         self.samples = []
         self.notes = collections.Counter()
         self.index = 0          # index of the case being executed (for minimal-first reporting)
+        self.results = []       # (index, value) returned by the case function (BFS successors etc.)
 
     # -- recording ---------------------------------------------------------------------------------
     def outcome(self, name, n=1):
@@ -112,6 +113,7 @@ class Part(object):
         for s in other.samples:
             if len(self.samples) < self.MAX_SAMPLES:
                 self.samples.append(s)
+        self.results.extend(other.results)
 
 
 # ---- fork-once sharding -----------------------------------------------------------------------------
@@ -124,7 +126,9 @@ def _run_chunk(k):
     for i in range(k, len(items), nchunks):
         part.index = i
         try:
-            fn(items[i], part)
+            r = fn(items[i], part)
+            if r is not None:
+                part.results.append((i, r))
         except Exception as e:   # an exception escaping a case = the library did something no oracle expected
             tb = traceback.extract_tb(e.__traceback__)
             where = "?"
@@ -203,6 +207,42 @@ class Run(object):
 
     def pmap(self, fn, items, serial=False):
         pmap(self.prop, fn, items, self.part, serial=serial)
+
+    def bfs(self, initial, expand, depth, on_level=None):
+        """Level-synchronous explicit-state search. `initial`: list of (canon, item). expand(item, part) -> list of (canon, item')
+        successors (it also evaluates invariants / the lock-step model for `item`). States are de-duplicated on canon; every state up to
+        `depth` is expanded (i.e. histories of length <= depth+1 are executed; states at distance depth+1 are reached but not expanded
+        unless `expand` is also asked to examine them through on_level). Returns the list of levels (lists of items)."""
+        seen = set()
+        frontier = []
+        for canon, item in initial:
+            d = digest(canon)
+            if d not in seen:
+                seen.add(d)
+                frontier.append(item)
+        levels = []
+        for lvl in range(depth + 1):
+            levels.append(frontier)
+            if not frontier:
+                break
+            self.part.results = []
+            pmap(self.prop, expand, frontier, self.part)
+            res = sorted(self.part.results, key=lambda t: t[0])
+            self.part.results = []
+            nxt = []
+            for _, succs in res:
+                for canon, item in succs:
+                    d = digest(canon)
+                    if d not in seen:
+                        seen.add(d)
+                        nxt.append(item)
+            if on_level:
+                on_level(lvl, frontier, nxt)
+            frontier = nxt
+        self.extra["bfs_states_discovered"] = len(seen)
+        self.extra["bfs_levels"] = [len(l) for l in levels] + ([len(frontier)] if frontier and len(levels) == depth + 1 else [])
+        self.unexpanded = frontier
+        return levels
 
     def require(self, cond, msg):
         """Vacuity guard: the exploration must have reached what it claims to reach."""
